@@ -7,6 +7,8 @@ VARIABLE x
 Spec == x = 0 /\ [][x' = x]_x
 Ok(ev) == CASE ev.e = "store" -> StoreAllowed(ev)
             [] ev.e = "load" -> LoadAllowed(ev)
+            [] ev.e = "astore" -> ArrStoreAllowed(ev)
+            [] ev.e = "aload" -> ArrLoadAllowed(ev)
             [] ev.e = "ptrload" -> PtrLoadAllowed(ev)
             [] ev.e = "ptrloadrun" -> PtrLoadRunAllowed(ev)
             [] ev.e = "ptrstore" -> PtrStoreAllowed(ev)
